@@ -1346,6 +1346,36 @@ func jsonNumbersToFloat64(value any) any {
 	return value
 }
 
+// copyOfValue copies a value that is being validated, so that trying a schema on it leaves the original
+// as it is. Objects and arrays are copied here: a YAML mapping may have keys that a general-purpose
+// copier cannot handle (null).
+func copyOfValue(value any) any {
+	switch v := value.(type) {
+	case nil:
+		return nil
+	case map[string]any:
+		out := make(map[string]any, len(v))
+		for k, e := range v {
+			out[k] = copyOfValue(e)
+		}
+		return out
+	case []any:
+		out := make([]any, len(v))
+		for i, e := range v {
+			out[i] = copyOfValue(e)
+		}
+		return out
+	case map[any]any:
+		out := make(map[any]any, len(v))
+		for k, e := range v {
+			out[k] = copyOfValue(e)
+		}
+		return out
+	default:
+		return deepcopy.Copy(value)
+	}
+}
+
 func (schema *Schema) visitNotOperation(settings *schemaValidationSettings, value any) (err error) {
 	if ref := schema.Not; ref != nil {
 		v := ref.Value
@@ -1355,7 +1385,7 @@ func (schema *Schema) visitNotOperation(settings *schemaValidationSettings, valu
 		// make a deep copy to protect origin value from being injected default value that defined in the "not" schema
 		tempValue := value
 		if settings.asreq || settings.asrep {
-			tempValue = deepcopy.Copy(value)
+			tempValue = copyOfValue(value)
 		}
 		if err := v.visitJSON(settings, tempValue); err == nil {
 			if settings.failfast {
@@ -1433,7 +1463,7 @@ func (schema *Schema) visitXOFOperations(settings *schemaValidationSettings, val
 
 			// make a deep copy to protect origin value from being injected default value that defined in mismatched oneOf schema
 			if settings.asreq || settings.asrep {
-				tempValue = deepcopy.Copy(value)
+				tempValue = copyOfValue(value)
 			}
 
 			if err := v.visitJSON(settings, tempValue); err != nil {
@@ -1486,7 +1516,7 @@ func (schema *Schema) visitXOFOperations(settings *schemaValidationSettings, val
 			}
 			// make a deep copy to protect origin value from being injected default value that defined in mismatched anyOf schema
 			if settings.asreq || settings.asrep {
-				tempValue = deepcopy.Copy(value)
+				tempValue = copyOfValue(value)
 			}
 			if err := v.visitJSON(settings, tempValue); err == nil {
 				ok = true
